@@ -6,6 +6,10 @@ Tie: the Lean definitions translated from the SOURCE TEXT of `BitArray` (`pyplum
 `bitUnpack`, `bitValue`, `bitSize`, `bitNext`, `bitPack` (Model/Types.lean) for ALL buffers, offsets, raw bytes,
 indexes and slot states — so `C19.bit_value`, `bit_size_next`, `bit_run_values`, `bit_run` (which are stated with
 these functions) speak about the translated code.
+
+WHAT THE HYPOTHESES EXCLUDE (audit round 8): offsets and bit indexes are `Nat` (`BitArray_{size,next,value}_eq (idx : Nat)`;
+negative indexes / offsets: no theorem); the raw-byte slot holds `Option UInt8` (`BitArray(300)` outside).  There is no
+`BitInst.step / run` simulation: the methods are tied one by one.
 -/
 namespace PlumVerif.TieTypesB
 open PlumVerif PlumVerif.Py PlumVerif.Types PlumVerif.TieTypes
